@@ -135,20 +135,27 @@ func cmdCheck(args []string) {
 			}
 			items, found := prog.Expand(pp, key, fc)
 			if !found {
+				// the function the contract is attached to is gone: nothing it
+				// promised is established any more
+				name := cf.PkgTypes.Name() + "." + key
 				fmt.Printf("STALE-CONTRACT %s %s: function not found in the working tree\n", pp, key)
-				broken++
+				all = append(all, unverifiable(name, "function under contract not found in the working tree"))
 				continue
 			}
 			for _, it := range items {
 				res := prog.VerifyFunc(it.fn, fc, cf, *tier)
 				results = append(results, res)
+				// A function that can no longer be verified (a contract clause no
+				// longer binds, or the body left the supported subset) is a failed
+				// proof of everything its contract promised: reported as a violation
+				// of the pseudo-obligation <func>#contract, with the reason.
 				if res.Unsupported != "" {
 					fmt.Printf("CHECK-ERROR %s: outside the supported subset: %s\n", res.Name, res.Unsupported)
-					broken++
+					all = append(all, unverifiable(res.Name, "outside the supported subset: "+res.Unsupported))
 				}
 				if res.ContractErr != "" {
 					fmt.Printf("STALE-CONTRACT %s: %s\n", res.Name, res.ContractErr)
-					broken++
+					all = append(all, unverifiable(res.Name, "contract no longer binds: "+res.ContractErr))
 				}
 				all = append(all, res.Obls...)
 			}
@@ -476,4 +483,12 @@ func funcHasFailure(all []*Obligation, fn string) bool {
 		}
 	}
 	return false
+}
+
+
+// unverifiable is the pseudo-obligation reported when a function under
+// contract cannot be verified at all on the current tree.
+func unverifiable(fn, why string) *Obligation {
+	return &Obligation{Name: fn + "#contract", Kind: "contract", Func: fn, Status: "unverifiable", Solver: "none", Pre: true,
+		Desc: "every clause of the contract of " + fn + " (the function could not be verified: " + why + ")", Output: why}
 }
